@@ -141,54 +141,13 @@ func useClientPool() func() {
 
 func connect(t *testing.T, cfg pbt.Cfg, p sim.Profile) { connectPre(t, cfg, p, nil) }
 
-// genCase is sim.GenCase plus, in one history of eight, one violation-free block that spends outputs of 31..34 or
-// 64..67 DIFFERENT confirmed transactions in single-input transactions (the unspent-set commit splits its work
-// into batches of 32 records), followed later by blocks that try to spend them again.
+// genCase is sim.GenCase plus, in one history of eight, a block that spends many different transactions (sim.AddWideBlock).
 func genCase(t *rapid.T, p sim.Profile) (c sim.Case, wide bool) {
 	c = sim.GenCase(t, p)
 	if rapid.IntRange(0, 7).Draw(t, "wide") != 0 {
 		return c, false
 	}
-	var cand []int
-	for i, op := range c.Ops {
-		if op.Kind == "block" && op.Viol == "" && !op.Hold {
-			cand = append(cand, i)
-		}
-	}
-	if len(cand) == 0 {
-		return c, false
-	}
-	// early in the history: the spendable set is then mostly the prefix's one-output coinbases, every input a
-	// different confirmed transaction
-	i := cand[rapid.IntRange(0, min(len(cand)-1, 2)).Draw(t, "wideop")]
-	n := rapid.SampledFrom([]int{31, 32, 33, 34, 64, 65, 66, 67}).Draw(t, "widen")
-	op := &c.Ops[i]
-	op.Txs = nil
-	for j := 0; j < n; j++ {
-		// selector 0: always the first of the (sorted) confirmed candidates, never an output created in this block
-		op.Txs = append(op.Txs, sim.TxSpec{Ins: []int{0},
-			Outs: []sim.OutSpec{{Fam: rapid.IntRange(0, 12).Draw(t, "widefam"), Share: 1, N: j}}, Fee: 1})
-	}
-	// enough mature coinbases: the chain tip stays at the same absolute height
-	if need := 100 + n + 8 + 20*i; c.Params.Prefix < need {
-		d := uint32(need - c.Params.Prefix)
-		if c.Params.Base >= d {
-			c.Params.Base -= d
-		}
-		c.Params.Prefix = need
-		// a synthetic chain (no blocks below Base) cannot serve a retarget: keep every multiple of 2016 out of it
-		if lo, hi := c.Params.Base, c.Params.Base+uint32(need+len(c.Ops)+2); lo != 0 && lo/2016 != hi/2016 {
-			c.Params.Base = 0
-		}
-	}
-	// blocks that try to spend outputs consumed by an earlier block
-	for k := i + 1; k < len(c.Ops) && k < i+6; k++ {
-		if c.Ops[k].Kind == "block" && c.Ops[k].Viol == "" && rapid.Bool().Draw(t, "respend") {
-			c.Ops[k].Viol = "spent_earlier"
-			c.Ops[k].Arg = rapid.IntRange(0, 1<<12).Draw(t, "respendarg")
-		}
-	}
-	return c, true
+	return c, sim.AddWideBlock(t, &c)
 }
 
 func connectPre(t *testing.T, cfg pbt.Cfg, p sim.Profile, pre func()) {
